@@ -14,6 +14,7 @@ import (
 	"time"
 
 	bs "github.com/danthegoodman1/bloomsearch"
+	"verifsim/simos"
 	"verifsim/simrt"
 )
 
@@ -272,6 +273,9 @@ type lifeState struct {
 	quitAll  chan struct{}
 	cancels  []context.CancelFunc
 	simctxs  []*SimCtx
+
+	ds       bs.DataStore
+	fsStore  *bs.FileSystemDataStore
 
 	maxOutstanding int
 	idCommit       map[string]int // _id -> step at which the Update referencing its file returned
@@ -564,7 +568,7 @@ func (st *lifeState) trackCommits() {
 			continue
 		}
 		for _, w := range mc.Writes {
-			data, ok := st.disk.FileBytes(w)
+			data, ok := st.fileBytes(w)
 			if !ok {
 				st.r.Violate("C06", "update-before-publish", "MetaStore.Update referenced %s at step %d but the DataStore has no published file for it", w, mc.End)
 				continue
@@ -579,6 +583,14 @@ func (st *lifeState) trackCommits() {
 			}
 		}
 	}
+}
+
+// fileBytes returns the published bytes of a file, whichever DataStore is in use.
+func (st *lifeState) fileBytes(ptr string) ([]byte, bool) {
+	if st.fsStore != nil {
+		return simos.Current.ReadFile(ptr)
+	}
+	return st.disk.FileBytes(ptr)
 }
 
 func fmtAnswers(as []answer) string {
@@ -691,6 +703,13 @@ func RunLife(r *Run, variant string) {
 	st.cfg = cfg
 	st.disk = NewSimDisk(r)
 	st.disk.NoAbort = wl.NoAbort
+	st.ds = st.disk
+	if variant == "fsds" {
+		// The real FileSystemDataStore over simos as DataStore, an atomic MetaStore beside it:
+		// both halves of C06 apply, and the faults land on the store's own os calls.
+		st.fsStore = bs.NewFileSystemDataStore(fsRoot)
+		st.ds = st.fsStore
+	}
 	if wl.Meta == 0 {
 		st.simMeta = NewSimMeta(r)
 		st.meta = st.simMeta
@@ -698,7 +717,7 @@ func RunLife(r *Run, variant string) {
 		st.gmeta = NewGatedMeta(r, bs.NewMemoryMetaStore())
 		st.meta = st.gmeta
 	}
-	eng, err := bs.NewBloomSearchEngine(cfg, st.meta, st.disk)
+	eng, err := bs.NewBloomSearchEngine(cfg, st.meta, st.ds)
 	if err != nil {
 		panic(err)
 	}
@@ -729,6 +748,11 @@ func RunLife(r *Run, variant string) {
 				StallPermille: []int{0, 10, 30}[r.S.Draw(3)], StallForever: r.S.Draw(3) == 0, HonorCtx: r.S.Bool(), MaxFaults: 1 + r.S.Draw(5)}
 			for _, k := range []string{"ds.create", "ds.write", "ds.wclose", "ds.abort", "ds.tomb", "ms.update", "ds.open", "ds.read", "ms.iter", "ms.yield"} {
 				r.Faults.ErrPermille[k] = rate
+			}
+			if variant == "fsds" {
+				for _, k := range []string{"os.create", "os.write", "os.fsync", "os.close", "os.rename", "os.fsyncdir", "os.remove", "os.open", "os.read"} {
+					r.Faults.ErrPermille[k] = rate / 3
+				}
 			}
 		}
 	}
@@ -1029,8 +1053,8 @@ func (st *lifeState) evaluate(clientsFinished bool) {
 
 	// ---- C06: acknowledgements are truthful ----
 	simrt.SetMode(simrt.ModeOff)
-	census := TakeCensus(st.meta, st.disk, false)
-	fresh, ferr := bs.NewBloomSearchEngine(st.cfg, st.meta, st.disk)
+	census := TakeCensus(st.meta, st.ds, false)
+	fresh, ferr := bs.NewBloomSearchEngine(st.cfg, st.meta, st.ds)
 	var freshIDs map[string]int
 	var freshErr error
 	if ferr == nil {
